@@ -113,6 +113,14 @@ def gen_requests(rng: Any, services: dict[int, dict[int, Any]], n: int, big: boo
         elif r < 0.42:
             s = rng.choice(sessions + [rng.randrange(1, 0x7F)])
             out.append(bytes([0x10, s | (0x80 if rng.random() < 0.2 else 0)]).hex())
+        elif r < 0.50:
+            # requestSeed followed by sendKey with the seed just received (the vECU accepts the seed as key) or a wrong one
+            cands = sorted({sub for sv in services.values() if 0x27 in sv and sv[0x27] for sub in sv[0x27] if sub % 2 == 1})
+            sub = rng.choice(cands) if cands and rng.random() < 0.85 else rng.choice([1, 3, 0x11])
+            out.append(bytes([0x27, sub]).hex())
+            if rng.random() < 0.3:
+                out.append("3e00")
+            out.append(f"dyn:sendkey:{sub + 1}:{'wrong' if rng.random() < 0.25 else 'right'}")
         else:
             out.append(valid_pdu(rng, services).hex())
     return out
@@ -217,6 +225,7 @@ class C14(Check):
             loop.keep.append(t)
             await asyncio.sleep(0)
             stop = {"flag": False}
+            last_seed: dict[int, bytes] = {}
 
             async def client_task(k: int, reqs: list[str]) -> None:
                 tr = await cls.connect(uri)
@@ -224,7 +233,15 @@ class C14(Check):
                 for n, hx in enumerate(reqs):
                     if stop["flag"]:
                         break
-                    pdu = bytes.fromhex(hx)
+                    if hx.startswith("dyn:sendkey:"):
+                        _, _, sub_s, how = hx.split(":")
+                        key = last_seed.get(k) or b"\x00"
+                        if how == "wrong":
+                            key = bytes([key[0] ^ 0xFF]) + key[1:]
+                        pdu = bytes([0x27, int(sub_s)]) + key
+                        hx = pdu.hex()
+                    else:
+                        pdu = bytes.fromhex(hx)
                     try:
                         req = service.UDSRequest.parse_dynamic(pdu)
                     except Exception as e:  # noqa: BLE001
@@ -237,6 +254,8 @@ class C14(Check):
                     try:
                         resp = await client.request(req)
                         rec.rec("rep", c=k, n=n, pdu=resp.pdu)
+                        if resp.pdu[0] == 0x67 and len(resp.pdu) >= 2 and resp.pdu[1] % 2 == 1:
+                            last_seed[k] = resp.pdu[2:]
                         rclass = "neg" if isinstance(resp, service.NegativeResponse) else type(resp).__name__
                         pairs[f"{cname}>{rclass}"] = pairs.get(f"{cname}>{rclass}", 0) + 1
                         if not isinstance(resp, service.NegativeResponse):
